@@ -143,7 +143,24 @@ def main(argv=None):
             crashes.append(r)
             continue
         if r.unsupported or r.status == 'vacuous':
-            undecided.append((r, '; '.join(sorted(set(r.unsupported))[:3]) or 'vacuous: no live path / no obligation'))
+            why = '; '.join(sorted(set(r.unsupported))[:3]) or 'vacuous: no live path / no obligation'
+            # a unit the engine cannot decide on this tree (a construct it has no model for, state it does not know of) is
+            # undecided - unless the unit's native replay exhibits a failing input for the property on this very tree: that is
+            # a violation found by running the real code, whatever the state of the proof
+            if r.unit.replay is not None and not any(c.status == 'refuted' for c in r.clauses.values()):
+                key = ('undecided-native', r.unit.replay)
+                if key not in _NATIVE_CACHE:
+                    mod, fn = r.unit.replay.split(':')
+                    _NATIVE_CACHE[key] = run_native(mod, fn, dict(model={}, clause='unit-not-decided', note=why))
+                rr = _NATIVE_CACHE[key]
+                if rr.get('reproduced'):
+                    c = verify.ClauseResult('unit-not-decided-and-the-native-replay-fails')
+                    c.refuted.append(dict(model={}, note=f'unit undecided ({why}); native replay: {rr.get("observed")}', formula='(no formula: ' + why + ')',
+                                          path=[], pc=[], native=rr, pre_reproduced=True))
+                    obligations += 1
+                    violations.append((r, c.name, c))
+                    continue
+            undecided.append((r, why))
         for cname, c in r.clauses.items():
             obligations += 1
             ob = f'{r.unit.name}/{cname}'
